@@ -135,6 +135,15 @@ def _norm_main(s):
     return [(im[1], tuple(sorted(sx.show(x) for x in im[2][0][2]))) + tuple(sx.show(k) for k in im[2][1:]) for im in t[2]]
 
 
+ITEMS_COMPARED = 0
+
+
+def _plain_patterns(items_sexp):
+    """every argument pattern is a plain identifier (the model forwards names only)"""
+    import re
+    return all(re.fullmatch(r'[A-Za-z_][A-Za-z0-9_]*', p) for p in re.findall(r'\(Arg "([^"]*)"', items_sexp))
+
+
 def check_mainimpls(invocations):
     """the main impl of every family (hook op mainimpl, items dropped) against the Coq model
     GenMain.gen_main_render: trait path, self type, where-clause and the set of parameters"""
@@ -145,13 +154,22 @@ def check_mainimpls(invocations):
     mreq, idx = [], []
     for i, r in enumerate(resp):
         if r.startswith('(Trait') or r.startswith('(NoTrait'):
-            t, b, g, e, h = r.split('\t')
+            t, b, g, e, h, mi, ti = r.split('\t')
             mreq.append('mainimpl\t%s\t%s' % (t, b)); idx.append((i, 'main'))
             mreq.append('helpertraits\t%s\t%s' % (t, b)); idx.append((i, 'helper'))
+            if '(Unsupported' not in mi and '(Unsupported' not in ti and _plain_patterns(mi):
+                mreq.append('mainitems\t%s\t%s\t%s' % (t, ti, b)); idx.append((i, 'items'))
     mresp = cm.run_model(mreq, exe_model) if mreq else []
     out = []
+    global ITEMS_COMPARED
     for (i, what), m in zip(idx, mresp):
-        if what == 'main':
+        if what == 'items':
+            ITEMS_COMPARED += 1
+            mi = resp[i].split('\t')[5]
+            if m != mi:
+                out.append(dict(kind='correspondence', request=invocations[i], impl=mi[:4000], model=m[:4000],
+                                oracle='corr:hook/mainitems: the items of the main impl the macro generates (forwarders to the helper trait) and the Coq model (GenMain.gen_main_items) disagree'))
+        elif what == 'main':
             e = resp[i].split('\t')[3]
             if _norm_main(m) != _norm_main(e):
                 out.append(dict(kind='correspondence', request=invocations[i], impl=e[:4000], model=m[:4000],
@@ -161,4 +179,4 @@ def check_mainimpls(invocations):
             if m != h:
                 out.append(dict(kind='correspondence', request=invocations[i], impl=h[:4000], model=m[:4000],
                                 oracle='corr:hook/helpertrait: the helper trait the macro generates (name, parameters, where-clause) and the Coq model (GenMain.gen_helper_trait) disagree'))
-    return len(idx) // 2, out
+    return sum(1 for _, w in idx if w == 'main'), out
